@@ -1170,6 +1170,13 @@ private:
                 if ( cc.flags( at ) != m_.conns[ c ].cccd[ static_cast< std::size_t >( k ) ] )
                 {
                     violate( "C09", "cccd-store", "cccd-store", "connection %u CCCD #%d is %u, model %u", c, k, cc.flags( at ), m_.conns[ c ].cccd[ static_cast< std::size_t >( k ) ] );
+                    // the client configuration of a characteristic that requires encryption is protected like its value (C05): on an unencrypted link
+                    // nothing the client does may change it
+                    if ( !m_.conns[ c ].encrypted )
+                        for ( std::size_t ci = 0; ci != cfg_.n_chars; ++ci )
+                            if ( cfg_.chars[ ci ].cccd_index == k && cfg_.chars[ ci ].encrypted )
+                                violate( "C05", "protected-cccd-changed", "protected-cccd-changed", "connection %u is not encrypted, the client configuration of characteristic %zu (requires encryption) went from %u to %u", c, ci,
+                                         m_.conns[ c ].cccd[ static_cast< std::size_t >( k ) ], cc.flags( at ) );
                     m_.conns[ c ].cccd[ static_cast< std::size_t >( k ) ] = static_cast< std::uint8_t >( cc.flags( at ) );
                 }
             }
